@@ -331,8 +331,12 @@ def execute(case, fault_at=None):
             with inj:
                 outcome = apply_op(ps, case['final'], case['objs'], memo)
             after = observe(kind, scratch, backend)
-            return {'before': before, 'outcome': outcome, 'after': after, 'count': inj.count, 'trace': inj.trace,
-                    'writes_before': inj.writes_before, 'fired': inj.fired}
+            res = {'before': before, 'outcome': outcome, 'after': after, 'count': inj.count, 'trace': inj.trace,
+                   'writes_before': inj.writes_before, 'fired': inj.fired}
+            if case.get('post'):
+                res['post_outcome'] = apply_op(ps, case['post'], case['objs'], memo)
+                res['post_obs'] = observe(kind, scratch, backend)
+            return res
     finally:
         shutil.rmtree(scratch, ignore_errors=True)
 
